@@ -270,12 +270,12 @@ func (g *FnGen) assume(guard, fact, origin string) {
 
 var strongKinds = map[string]bool{
 	"index": true, "slice": true, "div": true, "extern-requires": true, "panic": true, "requires": true,
-	"ensures": true, "invariant-entry": true, "invariant-preserved": true, "decreases": true,
+	"ensures": true, "subtype": true, "invariant-entry": true, "invariant-preserved": true, "decreases": true,
 	"assert": true, "assigns": true, "make": true, "shift": true, "nil-map": true, "lemma": true, "typeinv": true,
 	"shared-write": true,
 }
 
-var functionalKinds = map[string]bool{"ensures": true, "invariant-entry": true, "invariant-preserved": true,
+var functionalKinds = map[string]bool{"ensures": true, "subtype": true, "invariant-entry": true, "invariant-preserved": true,
 	"assert": true, "decreases": true, "requires": true, "typeinv": true}
 
 func (g *FnGen) oblige(kind, label, guard, cond, desc string, pos token.Pos) *Obligation {
